@@ -169,7 +169,7 @@ def gen(rng, tier):
                                            coord=rng.randint(1, nb) if grp != "none" else None, explicit=(i % 7 == 0),
                                            empty_group=(i % 2 == 0), kind="pair"))
     # C: two topics, 1-2 partitions each
-    for i in range(90 if tier == "quick" else 2500):
+    for i in range(90 if tier == "quick" else 6000):
         parts = {}
         for t in (T1, T2):
             for p in range(rng.randint(1, 2)):
@@ -187,7 +187,7 @@ def gen(rng, tier):
                                coord=rng.randint(1, nb) if grp != "none" else None, explicit=rng.random() < 0.2,
                                empty_group=rng.random() < 0.5, kind="multi"))
     # D: assigned partitions without a leader
-    for i in range(60 if tier == "quick" else 600):
+    for i in range(60 if tier == "quick" else 1500):
         parts = {}
         for t in ((T1,) if i % 2 else (T1, T2)):
             for p in range(rng.randint(1, 3) if t == T1 else rng.randint(1, 2)):
